@@ -31,24 +31,28 @@ type route struct {
 	AlwaysReset bool              `json:"always_reset,omitempty"`
 	TruncateAt  int               `json:"truncate_at,omitempty"` // announce the full Content-Length, send only this many bytes, then drop the connection
 	Tag         string            `json:"tag,omitempty"`         // free-form label used by oracles (depth label, chain position, scope class...)
+	// Expect lists absolute URLs that are part of the tree of whoever receives this (non-failing)
+	// response in full: the in-scope requisites planted in the body, or the redirect target.
+	Expect []string `json:"expect,omitempty"`
 }
 
 type originLog struct {
-	ID         int64  `json:"id"`
-	StartSeq   int64  `json:"start_seq"`
-	EndSeq     int64  `json:"end_seq"`
-	Host       string `json:"host"`
-	URI        string `json:"uri"`
-	URL        string `json:"url"` // http://host/uri
-	Status     int    `json:"status"`
-	SHA1       string `json:"sha1"` // hex sha1 of the entity bytes sent
-	Len        int    `json:"len"`
-	Completed  bool   `json:"completed"`
-	Reset      bool   `json:"reset,omitempty"`
-	Tag        string `json:"tag,omitempty"`
-	UnknownURI bool   `json:"unknown,omitempty"`
-	WallMs     int64  `json:"wall_ms"`
-	StartUs    int64  `json:"start_us"` // arrival time (µs since the origin started); data for rate monitors, never a deadline
+	ID         int64    `json:"id"`
+	StartSeq   int64    `json:"start_seq"`
+	EndSeq     int64    `json:"end_seq"`
+	Host       string   `json:"host"`
+	URI        string   `json:"uri"`
+	URL        string   `json:"url"` // http://host/uri
+	Status     int      `json:"status"`
+	SHA1       string   `json:"sha1"` // hex sha1 of the entity bytes sent
+	Len        int      `json:"len"`
+	Completed  bool     `json:"completed"`
+	Reset      bool     `json:"reset,omitempty"`
+	Tag        string   `json:"tag,omitempty"`
+	UnknownURI bool     `json:"unknown,omitempty"`
+	WallMs     int64    `json:"wall_ms"`
+	Expect     []string `json:"expect,omitempty"` // set when the route's real (non-failing) response was sent completely
+	StartUs    int64    `json:"start_us"`         // arrival time (µs since the origin started); data for rate monitors, never a deadline
 }
 
 type origin struct {
@@ -225,6 +229,11 @@ func (o *origin) handle(w http.ResponseWriter, req *http.Request) {
 		}
 	}
 	finish(status, ent, true, false)
+	if hit > r.FailFirst && len(r.Expect) > 0 {
+		o.mu.Lock()
+		entry.Expect = r.Expect
+		o.mu.Unlock()
+	}
 }
 
 func hostOf(k, n, port int) string { return fmt.Sprintf("127.0.%d.%d:%d", k, n, port) }
